@@ -6,6 +6,7 @@ package argmapper
 import (
 	"fmt"
 	"reflect"
+	"strconv"
 	"strings"
 
 	"github.com/hashicorp/go-argmapper/internal/graph"
@@ -109,20 +110,22 @@ func NewValueSet(vs []Value) (*ValueSet, error) {
 
 		// TODO(mitchellh): error on duplicate names, types
 
-		// Build our tag.
-		tags := []string{""}
+		// Build our tag. The value's name goes into the tag (and the field
+		// gets a synthetic name): a name doesn't have to be a valid Go
+		// identifier.
+		tags := []string{v.Name}
 		if v.Name == "" {
 			tags = append(tags, "typeOnly")
 		}
 		if v.Subtype != "" {
 			tags = append(tags, fmt.Sprintf("subtype=%s", v.Subtype))
 		}
-		tag := reflect.StructTag(fmt.Sprintf(`argmapper:"%s"`, strings.Join(tags, ",")))
+		tag := reflect.StructTag("argmapper:" + strconv.Quote(strings.Join(tags, ",")))
 
 		switch v.Kind() {
 		case ValueNamed:
 			sf = append(sf, reflect.StructField{
-				Name: strings.ToUpper(v.Name),
+				Name: fmt.Sprintf("V__Name_%d", i),
 				Type: v.Type,
 				Tag:  tag,
 			})
